@@ -184,7 +184,7 @@ func c03Scenario(s *verifsim.Sim) {
 			break
 		}
 		ev := T.Pick(16, 4, 1, 1, 1, 1, 1)
-		if (ev == 2 || ev == 3) && st.hasWanUdpDirect() && (!T.Chance(1, 40) || ksSkip("wanudpdirect")) {
+		if (ev == 2 || ev == 3) && st.hasWanUdpDirect() && (!T.Chance(1, 6) || ksSkip("wanudpdirect")) {
 			// changing rules/bindings under a tracked WAN UDP flow that was decided plain direct is
 			// rare on purpose: recorded defect "wan-udp-direct-recomputed"
 			ev = 1
